@@ -9,7 +9,7 @@ from ..runner import Acc, watchdog, Hang
 
 ID = 'C10'
 LEVEL = 'model_checking'
-RULE = ('(deep: a term nested 100..1000 levels - compound, list, parentheses, list tails - alone, between facts, as a rule head, in a rule body, and with one token too many: the compilation raises or every clause head is defined, never only the clauses behind the deep one) (before a text outside the language is compiled, the text obtained by gluing its blank-separated words together - often a valid program - is compiled, so that nothing remembered from one text can vouch for another) seed sentences: EVERY clause or directive of the documented grammar with <= N tokens over one representative '
+RULE = ('(large: sources of 1200 and 2100 facts with each of 10 tokens that cannot start a clause inserted behind fact 11, 999, 1000, 1001, the middle and the last-but-one fact: rejected as a whole) (deep: a term nested 100..1000 levels - compound, list, parentheses, list tails - alone, between facts, as a rule head, in a rule body, and with one token too many: the compilation raises or every clause head is defined, never only the clauses behind the deep one) (before a text outside the language is compiled, the text obtained by gluing its blank-separated words together - often a valid program - is compiled, so that nothing remembered from one text can vouch for another) seed sentences: EVERY clause or directive of the documented grammar with <= N tokens over one representative '
         'per token class, every two-clause program built from the clauses of <= 4 tokens, and the repository\'s sample '
         'files; for each seed EVERY single edit: delete / duplicate token i, swap tokens i,i+1, replace token i by the '
         'other members of its class, insert each of the 21 token kinds and each of 32 foreign character sequences (ASCII and non-ASCII look-alikes of lexicon characters) at '
@@ -272,17 +272,63 @@ def check_deep(case):
     return ('ok', None, None, ('deep', 'compiled', tuple(want)))
 
 
+# ---- a stray token somewhere in a LARGE source --------------------------------------------------------
+# 1200 and 2100 facts; each of the tokens that cannot start a clause inserted behind fact 11, 999, 1000, 1001, the
+# middle one and the last-but-one: the text is outside the language and must be rejected as a whole
+BIG_SIZES = [1200, 2100]
+BIG_TOKENS = ['.', ')', ']', ',', ';', '|', '->', '/', '\\+', '(']
+
+
+def big_cases():
+    idx = 0
+    for n in BIG_SIZES:
+        for pos in (11, 999, 1000, 1001, n // 2, n - 1):
+            for ti in range(len(BIG_TOKENS)):
+                yield idx, (n, pos, ti)
+                idx += 1
+
+
+def check_big(case):
+    n, pos, ti = case
+    facts = ['f%d(a%d).' % (i % 7, i) for i in range(n)]
+    text = '\n'.join(facts[:pos] + [BIG_TOKENS[ti]] + facts[pos:]) + '\n'
+    try:
+        out = impl.compile_text(text)
+    except Exception as e:  # noqa: BLE001
+        return ('ok', None, None, ('big', 'raised', type(e).__name__))
+    try:
+        have = len(re.findall(r"atom\('a\d+'\)", out))
+    except Exception:  # noqa: BLE001
+        have = -1
+    return ('violation', 'compiled-text-outside-grammar:large-source', 'a source of %d facts with the stray token %r behind fact %d was compiled (%d of the %d facts are in the returned code)'
+            % (n, BIG_TOKENS[ti], pos, have, n), None)
+
+
 NSH = 64
 
 
 def plan(tier):
-    return [(tier, kind, k, NSH) for kind in ('seeds', 'pairs', 'samples') for k in range(NSH)] + [(tier, 'deep', k, 4) for k in range(4)]
+    return [(tier, kind, k, NSH) for kind in ('seeds', 'pairs', 'samples') for k in range(NSH)] + [(tier, 'deep', k, 4) for k in range(4)] + [(tier, 'big', k, 16) for k in range(16)]
 
 
 def run_shard(spec):
     tier, kind, k, n = spec
     acc = Acc()
     maxtok = 7 if tier == 'quick' else 9
+    if kind == 'big':
+        for idx, case in big_cases():
+            if idx % n != k:
+                continue
+            acc.n['evaluations'] += 1
+            acc.n['validated'] += 1
+            acc.n['transitions'] += 1
+            st, sig, detail, outcome = check_big(case)
+            if st == 'violation':
+                acc.violation(sig, (4, idx), {'big': list(case)}, detail, key='big|%s' % (list(case),))
+            else:
+                acc.outcome(outcome)
+                acc.n['nontrivial'] += 1
+        return acc
     if kind == 'deep':
         for idx, case in deep_cases():
             if idx % n != k:
@@ -340,6 +386,9 @@ def run_shard(spec):
 
 
 def replay(case):
+    if 'big' in case:
+        st, sig, detail, _ = check_big(tuple(case['big']))
+        return [(sig, detail)] if st == 'violation' else []
     if 'deep' in case:
         st, sig, detail, _ = check_deep(tuple(case['deep']))
         return [(sig, detail)] if st == 'violation' else []
